@@ -2,8 +2,10 @@ package c12
 
 import (
 	"encoding/json"
+	"math/rand"
 	"os"
 	"path/filepath"
+	"strings"
 	"testing"
 
 	"verif/harness/core"
@@ -175,7 +177,55 @@ func TestWriteCorpus(t *testing.T) {
 		rc.me.count = 4
 		add("29-unused-first-and-middle-partly-written-last", "corpus:unused-middle", "TS", rc)
 	}
+	// follow-up wp-c12b
+	leadPadBios := func(fill byte) []biosElem {
+		return []biosElem{
+			{pad: 0x100, fill: fill, junk: []byte{0xde, 0xad, 0xbe, 0xef}},
+			{fv: &fvSpec{guid: guidEVSA, length: 0x400, size: 0x400, attrs: 0x0004FEFF, headerLen: 72, body: 0x55}},
+			{pad: blk - 0x500, fill: fill},
+		}
+	}
+	{
+		// finding "empty leading padding": nothing to free (the partition ends at the region end) and the BIOS
+		// region starts with a padding: unrepaired tighten_me prepends an EMPTY padding with the same offset 0;
+		// `utk IMG tighten_me extract D ; utk D save` then panics in Assemble (fixes/C12-empty-leading-padding.diff)
+		rc := withParts(stdRecipe(3, 1, 0xff), [2]uint32{0x400, 0x3000 - 0x400})
+		rc.bios = leadPadBios(0xff)
+		add("30-nothing-to-free-bios-starts-with-padding", "corpus:empty-leading-padding", "TS", rc)
+		// the same defect through a second tighten_me in one run (any image)
+		add("31-second-tighten-in-one-run", "corpus:empty-leading-padding", "TTS", withParts(stdRecipe(4, 2, 0xff), [2]uint32{0x400, 0x800}))
+		// non-zero reserved bytes in front of the region section survive the save (DESIGN §8 #19, d9ba762)
+		rc = withParts(stdRecipe(3, 1, 0xff), [2]uint32{0x400, 0x400})
+		rc.reserved = [2]byte{0xa5, 0x5a}
+		add("32-reserved-bytes-nonzero", "corpus:reserved", "TSRTS", rc)
+		// the BIOS region starts with a padding that holds data and the boundary moves (seeded c12-4)
+		rc = withParts(stdRecipe(3, 1, 0xff), [2]uint32{0x400, 0x400})
+		rc.bios = leadPadBios(0xff)
+		add("33-leading-padding-boundary-moves", "corpus:leading-padding", "TSRTS", rc)
+		// known finding: "_FVH" at an 8-aligned offset below 32 of the BIOS region is not probed while the region
+		// starts there, but it is once freed blocks precede it: the saved image does not parse any more
+		rc = withParts(stdRecipe(3, 1, 0xff), [2]uint32{0x400, 0x400})
+		rc.bios = leadPadBios(0xff)
+		rc.bios[0].junk = append(bytesOf(0xff, 8), []byte("_FVH")...)
+		add("34-fvh-below-probe-start", "corpus:probe-quirk", "TSRTS", rc)
+	}
 	os.MkdirAll(dir, 0o755)
+	// a tree-level case: volumes with files, an edit that succeeds, tighten_me, save
+	for seed := int64(1); seed < 400; seed++ {
+		c, ok := genTreeCase(rand.New(rand.NewSource(seed)))
+		if !ok || !(strings.Contains(c.Args["ops"], "rm:") || strings.Contains(c.Args["ops"], "rp:")) {
+			continue
+		}
+		if out := runTree(c); out.Class != "tree|run:ok:tightened" {
+			continue
+		}
+		c.Kind = "corpus:tree"
+		b, _ := json.MarshalIndent(c, "", " ")
+		if err := os.WriteFile(filepath.Join(dir, "35-tree-remove-tighten-save.json"), b, 0o644); err != nil {
+			t.Fatal(err)
+		}
+		break
+	}
 	for _, it := range items {
 		c := core.Case{Kind: it.kind, Op: it.ops, Args: map[string]string{"img": rleEncode(it.rc.build()), "pol0": "240"}}
 		if it.kind == "corpus:ffs-file" {
